@@ -512,6 +512,10 @@ def to_xml(net, point_order=None, cluster_order=None, obs_order=None):
                 out.append("  <%s> <from>%s</from> <to>%s</to> <val>%s</val>%s </%s>" % (
                     o.kind, o.pts[0], o.pts[1], val, extra, o.kind))
             elif o.kind == "angle":
+                if o.dh[2] != 0:
+                    extra = " <right-dh>%s</right-dh>" % fnum(o.dh[2]) + extra
+                if o.dh[1] != 0:
+                    extra = " <left-dh>%s</left-dh>" % fnum(o.dh[1]) + extra
                 if o.dh[0] != 0:
                     extra = " <from-dh>%s</from-dh>" % fnum(o.dh[0]) + extra
                 out.append("  <angle> <from>%s</from> <left>%s</left> <right>%s</right> <val>%s</val>%s </angle>" % (
@@ -587,11 +591,71 @@ def spd(rng, dim, band, sd_lo, sd_hi):
     return C
 
 
+def make_clusters(rng, obs_list, kinds, features):
+    """group observations into covariance blocks"""
+    obs = {k: [o for o in obs_list if o.kind == k] for k in KINDS}
+    sdv = dict(vector=(2.0, 12.0), xyz=(3.0, 15.0), distance=(2.0, 10.0), height=(3.0, 15.0), hdiff=(1.0, 8.0),
+               zenith=(3.0, 15.0), angle=(3.0, 15.0), azimuth=(3.0, 15.0))
+    pool = []
+    for k in kinds:
+        lst = obs[k]
+        lst = [lst[i] for i in rng.permutation(len(lst))]
+        if k in ("vector", "xyz"):
+            while lst:
+                m = 1 if "clusters" not in features else int(rng.integers(1, 5))
+                grp, lst = lst[:m], lst[m:]
+                dim = 3 * len(grp)
+                bw = dim - 1 if rng.uniform() < 0.6 else int(rng.integers(0, dim))
+                if "clusters" not in features and rng.uniform() < 0.15:
+                    bw = 0
+                pool.append(Cluster(grp, spd(rng, dim, bw, *sdv[k]), bw))
+        else:
+            while lst:
+                m = int(rng.integers(1, 9)) if "clusters" in features else int(rng.integers(1, 4))
+                grp, lst = lst[:m], lst[m:]
+                dim = len(grp)
+                bw = 0 if rng.uniform() < 0.5 else int(rng.integers(0, dim))
+                C = spd(rng, dim, bw, *sdv[k])
+                if "deg" in features:
+                    # arc-second units for the members given as d-m-s
+                    s = np.array([1.0 / 3.0 if (o.kind in ANGULAR and o.unit == "deg") else 1.0 for o in grp])
+                    C = np.array([[float("%.6g" % v) for v in row] for row in C * np.outer(s, s)])
+                cl = Cluster(grp, C, bw)
+                if "inline" in features and np.count_nonzero(C - np.diag(np.diag(C))) == 0 and rng.uniform() < 0.6:
+                    for o in grp:
+                        o.inline = str(rng.choice(["stdev", "variance"]))
+                pool.append(cl)
+    if "mixed-cluster" in features and len(pool) >= 2:
+        # merge pairs of clusters of different kinds into one block (block-diagonal covariance, band as needed)
+        merged, used = [], set()
+        idx = [int(i) for i in rng.permutation(len(pool))]
+        for a, bq in zip(idx[0::2], idx[1::2]):
+            if rng.uniform() < 0.5:
+                ca, cb = pool[a], pool[bq]
+                da, db = ca.C.shape[0], cb.C.shape[0]
+                C = np.zeros((da + db, da + db))
+                C[:da, :da] = ca.C
+                C[da:, da:] = cb.C
+                if rng.uniform() < 0.5:     # a genuine cross covariance between the two groups
+                    C[da - 1, da] = C[da, da - 1] = 0.2 * math.sqrt(C[da - 1, da - 1] * C[da, da])
+                    C[da - 1, da] = C[da, da - 1] = float("%.6g" % C[da, da - 1])
+                for o in ca.obs + cb.obs:
+                    o.inline = None
+                bw = max(ca.band, cb.band, 1)
+                if np.linalg.eigvalsh(C)[0] > 0:
+                    merged.append(Cluster(ca.obs + cb.obs, C, bw))
+                    used |= {a, bq}
+        pool = [c for i, c in enumerate(pool) if i not in used] + merged
+    return pool
+
+
 def gen_net(rng, kinds, datum, band=None, lonclass=None, npts=None, ell=None, features=()):
     """Truth + consistent observations.  kinds: subset of KINDS; datum: fixed | free | mixed.
     features: 'dh' (instrument/target heights), 'deg' (angles as d-m-s), 'blh' (some points as B L H),
     'clusters' (several observations per covariance block), 'mixed-cluster' (vectors and scalars in one block),
-    'inline' (stdev / variance inside the observation), 'partial' (points with fixed height or fixed position only)."""
+    'inline' (stdev / variance inside the observation), 'partial' (points with fixed height or fixed position only),
+    'wide-angles' (angles above 200 gon are kept, otherwise left/right are swapped), 'angle-target-dh' (target heights
+    of angles)."""
     features = set(features)
     if ell is None:
         how = str(rng.choice(["id", "id", "id", "ab", "af"]))
@@ -646,6 +710,8 @@ def gen_net(rng, kinds, datum, band=None, lonclass=None, npts=None, ell=None, fe
     perm = [ids[i] for i in rng.permutation(n)]
     if datum == "fixed":
         nf = int(rng.integers(1, max(2, n // 3) + 1))
+        if not ({"vector", "xyz"} & set(kinds)):
+            nf = max(nf, 3)            # distances / angles / heights alone do not fix position and orientation
         for i in perm[:nf]:
             net.pts[i].st = dict(n="fixed", e="fixed", u="fixed")
         if "partial" in features:
@@ -713,6 +779,7 @@ def gen_net(rng, kinds, datum, band=None, lonclass=None, npts=None, ell=None, fe
         for i in perm[:int(rng.integers(1, 4))]:
             obs["xyz"].append(Obs("xyz", (i,)))
     if "angle" in kinds:
+        gtruth = Geo(ell, net.truth())
         nb = {i: set() for i in range(n)}
         for a, bq in edges:
             nb[a].add(bq)
@@ -724,62 +791,65 @@ def gen_net(rng, kinds, datum, band=None, lonclass=None, npts=None, ell=None, fe
             t = [int(v) for v in rng.permutation(t)]
             for k in range(len(t) - 1):
                 if rng.uniform() < 0.8:
-                    obs["angle"].append(Obs("angle", (ids[a], ids[t[k]], ids[t[k + 1]]),
-                                            (dh(), 0.0, 0.0), unit()))
+                    o = Obs("angle", (ids[a], ids[t[k]], ids[t[k + 1]]),
+                            (dh(), dh() if "angle-target-dh" in features else 0.0,
+                             dh() if "angle-target-dh" in features else 0.0), unit())
+                    v = float(model(gtruth, net, o)[0]) / math.pi * 200.0
+                    if min(v, abs(v - 200.0), 400.0 - v) < 3.0:
+                        continue                       # targets (nearly) in line with the station
+                    if v > 200.0 and "wide-angles" not in features:
+                        o = Obs("angle", (o.pts[0], o.pts[2], o.pts[1]), (o.dh[0], o.dh[2], o.dh[1]), o.unit)
+                    obs["angle"].append(o)
     # ---- clusters
-    sdv = dict(vector=(2.0, 12.0), xyz=(3.0, 15.0), distance=(2.0, 10.0), height=(3.0, 15.0), hdiff=(1.0, 8.0),
-               zenith=(3.0, 15.0), angle=(3.0, 15.0), azimuth=(3.0, 15.0))
-    pool = []
-    for k in kinds:
-        lst = obs[k]
-        lst = [lst[i] for i in rng.permutation(len(lst))]
-        if k in ("vector", "xyz"):
-            while lst:
-                m = 1 if "clusters" not in features else int(rng.integers(1, 5))
-                grp, lst = lst[:m], lst[m:]
-                dim = 3 * len(grp)
-                bw = dim - 1 if rng.uniform() < 0.6 else int(rng.integers(0, dim))
-                if "clusters" not in features and rng.uniform() < 0.15:
-                    bw = 0
-                pool.append(Cluster(grp, spd(rng, dim, bw, *sdv[k]), bw))
-        else:
-            while lst:
-                m = int(rng.integers(1, 9)) if "clusters" in features else int(rng.integers(1, 4))
-                grp, lst = lst[:m], lst[m:]
-                dim = len(grp)
-                bw = 0 if rng.uniform() < 0.5 else int(rng.integers(0, dim))
-                C = spd(rng, dim, bw, *sdv[k])
-                if "deg" in features:
-                    # arc-second units for the members given as d-m-s
-                    s = np.array([1.0 / 3.0 if (o.kind in ANGULAR and o.unit == "deg") else 1.0 for o in grp])
-                    C = np.array([[float("%.6g" % v) for v in row] for row in C * np.outer(s, s)])
-                cl = Cluster(grp, C, bw)
-                if "inline" in features and np.count_nonzero(C - np.diag(np.diag(C))) == 0 and rng.uniform() < 0.6:
-                    for o in grp:
-                        o.inline = str(rng.choice(["stdev", "variance"]))
-                pool.append(cl)
-    if "mixed-cluster" in features and len(pool) >= 2:
-        # merge pairs of clusters of different kinds into one block (block-diagonal covariance, band as needed)
-        merged, used = [], set()
-        idx = [int(i) for i in rng.permutation(len(pool))]
-        for a, bq in zip(idx[0::2], idx[1::2]):
-            if rng.uniform() < 0.5:
-                ca, cb = pool[a], pool[bq]
-                da, db = ca.C.shape[0], cb.C.shape[0]
-                C = np.zeros((da + db, da + db))
-                C[:da, :da] = ca.C
-                C[da:, da:] = cb.C
-                if rng.uniform() < 0.5:     # a genuine cross covariance between the two groups
-                    C[da - 1, da] = C[da, da - 1] = 0.2 * math.sqrt(C[da - 1, da - 1] * C[da, da])
-                    C[da - 1, da] = C[da, da - 1] = float("%.6g" % C[da, da - 1])
-                for o in ca.obs + cb.obs:
-                    o.inline = None
-                bw = max(ca.band, cb.band, 1)
-                if np.linalg.eigvalsh(C)[0] > 0:
-                    merged.append(Cluster(ca.obs + cb.obs, C, bw))
-                    used |= {a, bq}
-        pool = [c for i, c in enumerate(pool) if i not in used] + merged
-    net.clusters = [pool[i] for i in rng.permutation(len(pool))]
+    net.clusters = make_clusters(rng, [o for k in kinds for o in obs[k]], kinds, features)
+    # ---- determinacy: every unknown component must be a parameter, the rank defect must be resolvable by the
+    # datum chosen, and the conditioning moderate (reference model; observations are added until it is so)
+    from . import lsq
+    net.meta["admitted"] = False
+    for attempt in range(6):
+        set_true(net)
+        P, params, _rows = ref_system(net, coords=net.truth())
+        want = [(pid, c) for pid, p in net.pts.items() for c in "neu" if p.st[c] in ("free", "constr")]
+        missing = [pc for pc in want if pc not in set(params)]
+        ok = False
+        if not missing and P["A"].shape[0] >= 1:
+            ref = lsq.Reference(P)
+            ok = ref.ok and ref.kappa <= 2e3 and (ref.defect == 0 or (P["minx"] is not None and ref.subset_ok))
+            if ok and ref.defect and P["minx"] is not None:
+                Gs = ref.G[[j - 1 for j in P["minx"]], :]
+                ok = bool(np.linalg.svd(Gs, compute_uv=False)[-1] > 0.05)
+        if ok:
+            net.meta["admitted"] = True
+            break
+        # add observations
+        have = {}
+        for _, o in net.all_obs():
+            if len(o.pts) == 2:
+                have.setdefault(o.kind, set()).add(frozenset(o.pts))
+        if attempt >= 1:
+            for _ in range(n):
+                a, bq = [int(v) for v in rng.choice(n, 2, replace=False)]
+                if (min(a, bq), max(a, bq)) not in edges:
+                    edges.append((min(a, bq), max(a, bq)))
+        add = []
+        carriers = [k for k in ("vector", "distance", "zenith", "hdiff") if k in kinds]
+        if attempt >= 2 and "vector" not in kinds and "distance" not in kinds:
+            break
+        for k in carriers:
+            for e in edges:
+                if frozenset((ids[e[0]], ids[e[1]])) not in have.get(k, set()):
+                    if attempt == 0 and rng.uniform() < 0.3:
+                        continue
+                    add.append(Obs(k, ends(e), (dh(), dh()) if k != "hdiff" else None, unit()))
+        if "height" in kinds:
+            got = {o.pts[0] for _, o in net.all_obs() if o.kind == "height"}
+            add += [Obs("height", (i,)) for i in ids if i not in got]
+        if not add:
+            if attempt >= 1:
+                break
+            continue
+        net.clusters += make_clusters(rng, add, kinds, features - {"mixed-cluster"})
+    net.clusters = [net.clusters[i] for i in rng.permutation(len(net.clusters))]
     # a cluster whose members are all inline must stay so; a cluster with mixed inline flags uses a cov-mat
     for c in net.clusters:
         if not all(o.inline for o in c.obs):
@@ -799,7 +869,7 @@ def gen_net(rng, kinds, datum, band=None, lonclass=None, npts=None, ell=None, fe
         e = L @ rng.standard_normal(c.C.shape[0])
         for o, off in zip(c.obs, c.offsets()):
             o.noise = e[off:off + o.dim].copy()
-    net.meta = dict(band=bandname, hemi=hemi, lon=lonclass, lat=lat, lon_deg=lon, size=size, n=n, datum=datum,
+    net.meta = dict(admitted=net.meta.get("admitted", False), band=bandname, hemi=hemi, lon=lonclass, lat=lat, lon_deg=lon, size=size, n=n, datum=datum,
                     kinds="+".join(kinds), ell=ell.name, ell_how=ell.how, features=sorted(features), h0=h0)
     return net
 
